@@ -214,6 +214,61 @@ def check_conflict_shapes(res):
         res.fail(kind="oracle", function="validate_output_conflicts", what=f"unordered producers rejected with {type(e).__name__}, not a configuration error", replay=rep)
 
 
+def check_conflict_orders(res):
+    """Position independence of the mutex-or-ordered rule: three producers of one name, two of them ordered with the third
+    but not with each other, in EVERY declaration order (name inference and explicit edges); the repaired graph is accepted."""
+    set_case("C19", {"part": "conflict_orders"}, "n/a")
+    rep = {"harness": "C19", "spec": {"part": "conflict_orders"}, "runner": "n/a", "part": "conflict_orders"}
+    for repaired, explicit in itertools.product([False, True], [False, True]):
+        for order in itertools.permutations(["first", "late", "merge"]):
+            log = Log()
+            nodes = {"first": tagged_node("first", ["seed"], ["x"], log, emit=("first_done",)),
+                     "late": tagged_node("late", ["seed"], ["x"], log, emit=("late_done",), wait_for=(("first_done",) if repaired else ())),
+                     "merge": tagged_node("merge", ["seed"], ["x"], log, wait_for=("first_done", "late_done"))}
+            edges = [("first", "merge"), ("late", "merge")] + ([("first", "late")] if repaired else [])
+            res.case(repr(("conflict_orders", order, repaired, explicit)), nontrivial=True)
+            try:
+                Graph([nodes[n] for n in order], **({"edges": edges} if explicit else {}))
+                built, err = True, None
+            except GraphConfigError:
+                built, err = False, None
+            except Exception as e:  # noqa: BLE001
+                built, err = False, e
+            if err is not None:
+                res.fail(kind="oracle", function="validate_output_conflicts", what=f"producers {order} (repaired={repaired}, explicit edges={explicit}) rejected with {type(err).__name__}, not a configuration error", replay=rep)
+            elif built != repaired:
+                res.fail(kind="oracle", function="validate_output_conflicts", what=f"three producers of x in order {order}, first/late unordered={not repaired}, explicit edges={explicit}: accepted={built}, expected accepted={repaired}", replay=rep)
+
+
+def check_strict_fanout(res):
+    """strict_types at every CONSUMER position: one value consumed by several nodes, the flawed consumer (type mismatch or
+    missing annotation) first, in the middle or last."""
+    set_case("C19", {"part": "strict_fanout"}, "n/a")
+    rep = {"harness": "C19", "spec": {"part": "strict_fanout"}, "runner": "n/a", "part": "strict_fanout"}
+    import inspect
+    for n_cons, bad_at, flaw in itertools.product([2, 3], [None, 0, 1, 2], ["mismatch", "unannotated"]):
+        if bad_at is not None and bad_at >= n_cons:
+            continue
+        prod = typed_node("prod", [], "a", int, {})
+        cons = []
+        for i in range(n_cons):
+            if i == bad_at and flaw == "unannotated":
+                c = typed_node(f"cons{i}", ["a"], f"r{i}", int, {"a": inspect.Parameter.empty})
+                c.func.__annotations__.pop("a", None)
+                c = FunctionNode(c.func, name=f"cons{i}", output_name=f"r{i}")
+            else:
+                c = typed_node(f"cons{i}", ["a"], f"r{i}", int, {"a": (str if i == bad_at else int)})
+            cons.append(c)
+        res.case(repr(("strict_fanout", n_cons, bad_at, flaw)), nontrivial=True)
+        try:
+            Graph([prod] + cons, strict_types=True)
+            built = True
+        except GraphConfigError:
+            built = False
+        if built != (bad_at is None):
+            res.fail(kind="oracle", function="_validate_types", what=f"strict graph, value 'a':int consumed by {n_cons} nodes, consumer #{bad_at} flawed ({flaw}): accepted={built}, expected accepted={bad_at is None}", replay=rep)
+
+
 def run(tier, seed, functions):
     n = 40 if tier == "quick" else 600
     res = Result("C19", "valid random DAGs x single injected flaw at every position (duplicate node name, second unordered producer, gate target that is not a node, wait_for on an unproduced name, "
@@ -228,6 +283,8 @@ def run(tier, seed, functions):
     check_types(res)
     check_strict(res)
     check_conflict_shapes(res)
+    check_conflict_orders(res)
+    check_strict_fanout(res)
     return res
 
 
@@ -240,6 +297,10 @@ def replay(rep):
         check_types(res)
     elif rep["part"] == "strict":
         check_strict(res)
+    elif rep["part"] == "conflict_orders":
+        check_conflict_orders(res)
+    elif rep["part"] == "strict_fanout":
+        check_strict_fanout(res)
     else:
         check_conflict_shapes(res)
     return [f["what"] for f in res.failures]
